@@ -23,7 +23,10 @@ HARNESS = dict(
         (_ENC, [f"-D{s}=portable_{s}" for s in _PUBLIC], "encoding_portable"),
     ],
 )
-TRUSTED = ["hand model lean/AwsVerif/Model/Codec.lean of the portable code paths (tied by this correspondence run only)",
+TRUSTED = ["hand model lean/AwsVerif/Model/Codec.lean of the portable code paths: its length functions and every integer expression of "
+           "the base64 / hex / UTF-8 loops are proved equal to the layer generated from the current encoding.c (c05_gen_* bridge "
+           "theorems, translator gen/codec_gen.py + gen/cfun.py trusted); the loop / store structure around them is tied by this "
+           "correspondence run",
            "generated tables lean/AwsVerif/Gen/CodecTables.lean (props/c05_gen.py: initialiser parser cross-checked against a compiled probe of the current encoding.c)",
            "hand model lean/AwsVerif/Model/CodecAvx2.lean of source/arch/intel/encoding_avx2.c: the documented meaning of the AVX2 intrinsics "
            "(listed in the file header) is trusted; range constants, shuffle tables, loop bounds, fill/padding characters are regenerated "
@@ -46,8 +49,17 @@ NOT_PROVED = []
 
 
 def regen(ctx):
-    """generated layer: lean/AwsVerif/Gen/CodecTables.lean from the tree under test (raises core.GenError)"""
-    c05_gen.regen(ctx)
+    """generated layer, rewritten from the tree under test (raises core.GenError):
+    Gen/CodecTables.lean (tables, props/c05_gen.py), Gen/CodecAvx2Consts.lean (constants of encoding_avx2.c, props/c05_gen.py),
+    Gen/CodecFns.lean (length functions and the integer expressions of the portable base64 / hex / UTF-8 code, cut out of
+    encoding.c and translated through gen/cfun.py by gen/codec_gen.py; bridged to the model in Proofs/C05/GenBridge.lean)"""
+    from gen import codec_gen, cfun
+    t, _ = c05_gen.regen(ctx)
+    try:
+        txt = codec_gen.generate(cbuild.REPO, cbuild.config_include(), t["sentinel"])
+    except cfun.GenError as e:
+        raise core.GenError(str(e))
+    core.write_if_changed(os.path.join(core.LEAN, "AwsVerif", "Gen", "CodecFns.lean"), txt)
 
 
 B64 = b"ABCDEFGHIJKLMNOPQRSTUVWXYZabcdefghijklmnopqrstuvwxyz0123456789+/"
@@ -656,16 +668,30 @@ def distribution(cases, c_out):
 
 
 def extra_stages(ctx):
+    """dispatch: "both CPU code paths" means the vector build really takes the AVX2 path wherever the CPU (per gcc's own
+    cpuid/XGETBV probe, __builtin_cpu_supports) can run it, and keeps saying so"""
     try:
         exe = cbuild.build_harness(**HARNESS)
     except cbuild.BuildError:
         return
-    rc, out = core.sh([exe], input="")
-    m = re.search(r"I avx2=(\d)", out)
-    if m and m.group(1) == "1":
-        ctx.notes.append("vector build used the AVX2 code path on this host (aws_common_private_has_avx2() = 1)")
+    env = {k: v for k, v in os.environ.items() if k != "AWS_COMMON_AVX2"}
+    rc, out = core.sh([exe], input="", env=env)
+    m = re.search(r"I avx2=(\d) avx2_again=(\d) host_avx2=(\d)", out)
+    if not m:
+        ctx.machinery_broken("codec harness printed no dispatch probe line: " + out[-300:])
+        return
+    lib, again, host = (int(x) for x in m.groups())
+    if lib != again or lib != host:
+        ctx.violation(f"dispatch-{ctx.seed}", {"probe": m.group(0), "stream": "run-time dispatch (aws_common_private_has_avx2 / aws_cpu_has_feature)"},
+                      f"aws_common_private_has_avx2() answered {lib} then {again} on a CPU whose AVX2 usability (gcc __builtin_cpu_supports) is {host}: "
+                      + ("the vector code path is never taken here, so the two CPU paths are not both exercised" if host and not (lib and again)
+                         else "the dispatcher would run AVX2 code on a CPU without it" if not host else "the cached answer changes between calls"),
+                      no_input=True)
+    elif host:
+        ctx.notes.append("vector build used the AVX2 code path on this host (aws_common_private_has_avx2() = 1 = gcc's cpuid probe)")
     else:
-        ctx.notes.append("this host has no AVX2: the 'vector' build fell back to the portable path, the differential comparison was vacuous")
+        ctx.notes.append("this host has no AVX2 (library and gcc probe agree): the 'vector' build fell back to the portable path, "
+                         "the differential comparison was vacuous; the model-level theorems c05_b64_avx2_* still hold")
 
 
 MANIFEST = dict(
